@@ -897,6 +897,10 @@ func (e *SpecEnv) call(x *ECall) Val {
 			k = chRecvN
 		}
 		return Val{T: MathInt, C: []string{sx("select", e.heapRead(k), v.s())}}
+	case "lastsendon":
+		// index of this function's latest send on the given channel
+		v := e.eval(x.Args[0])
+		return Val{T: MathInt, C: []string{sx("select", e.heapRead(chLastOn), v.s())}}
 	case "lastsend", "lastrecv":
 		// index (in the channel's message log) of this function's latest send / receive
 		k := chLastSend
